@@ -273,6 +273,7 @@ pub fn declare_counters(ev: &mut Evidence, mode: Mode) {
       "actions_applied",
       "completion_items_with_edits",
       "clauses_iii_v_skipped_old_text_had_syntax_errors",
+      "clause_iv_skipped_exporter_declares_an_interface",
       "class_exported_by_two_modules",
       "document_without_imports",
       "last_import_without_semicolon",
